@@ -10,6 +10,7 @@ def unit(pkg, test, quick, thorough, replay=None, **kw):
 
 PLAN = {
     "C01": {"level": "exploration", "units": [unit("cyc", "TestC01", 3000, 40000, replay="TestReplayC01")]},
+    "C02": {"level": "exploration", "units": [unit("disc", "TestC02", 700, 12000, replay="TestReplayC02", shrinktime="30s")]},
     "C03": {"level": "exploration", "units": [unit("loop", "TestC03", 500, 8000, replay="TestReplayC03", shrinktime="30s")]},
     "C04": {"level": "exploration", "units": [unit("cyc", "TestC04", 3000, 40000, replay="TestReplayC04")]},
     "C05": {"level": "exploration", "units": [
